@@ -92,6 +92,54 @@ theorem swapPageData_heap (r : Reader α) (h : HeapOk r) :
 theorem swapPageData_chunk' (fx : Fixes) (r : Reader α) : (swapPageData fx r).chunk = r.chunk := by
   unfold swapPageData; split <;> (try split) <;> rfl
 
+theorem heapEq_installEmpty (r : Reader α) : heapEq (installEmpty r) r := ⟨rfl, rfl, rfl, rfl⟩
+
+/-- one `load_next_page` under F28 (F63: an empty page leaves the heap as it is) -/
+theorem loadNextPage_heap (r r' : Reader α) (h : HeapOk r) (hl : loadNextPage Fixes.all r = .ok r') :
+    HeapOk r' ∧ ∀ b ∈ liveBufs r, b ∈ liveBufs r' := by
+  unfold loadNextPage at hl
+  cases hp : r.chunk.pages[r.currentPage]? with
+  | none => rw [hp] at hl; cases hl
+  | some o =>
+    rw [hp] at hl
+    cases o with
+    | none => cases hl
+    | some p =>
+      simp only at hl
+      split at hl
+      · cases hl
+      · split at hl
+        · cases hl
+          exact ⟨heapOk_of_heapEq (heapEq_installEmpty r) h,
+            fun b hb => by rw [liveBufs_of_heapEq (heapEq_installEmpty r)]; exact hb⟩
+        · cases hl
+          obtain ⟨s1, s2, _, _⟩ := swapPageData_heap r h
+          have he := heapEq_installPage Fixes.all r p
+          exact ⟨heapOk_of_heapEq he s1, fun b hb => by rw [liveBufs_of_heapEq he]; exact s2 b hb⟩
+
+/-- the page-load loop under F28: live buffers stay live, nothing is freed -/
+theorem prepareLoop_heap : ∀ (fuel : Nat) (r : Reader α), HeapOk r →
+    HeapOk (prepareLoop Fixes.all fuel r).1 ∧ ∀ b ∈ liveBufs r, b ∈ liveBufs (prepareLoop Fixes.all fuel r).1 := by
+  intro fuel
+  induction fuel with
+  | zero => intro r h; exact ⟨h, fun b hb => hb⟩
+  | succ fuel ih =>
+    intro r h
+    unfold prepareLoop
+    split
+    · have ha : HeapOk (advance r) := heapOk_of_heapEq (heapEq_advance r) h
+      have hla : ∀ b ∈ liveBufs r, b ∈ liveBufs (advance r) := by
+        intro b hb; rw [liveBufs_of_heapEq (heapEq_advance r)]; exact hb
+      cases hl : loadNextPage Fixes.all (advance r) with
+      | error e => exact ⟨ha, hla⟩
+      | ok r' =>
+        obtain ⟨h1, h2⟩ := loadNextPage_heap (advance r) r' ha hl
+        have hf63 : Fixes.all.f63 = true := rfl
+        simp only [hf63, if_true]
+        obtain ⟨h3, h4⟩ := ih r' h1
+        exact ⟨h3, fun b hb => h4 b (h2 b (hla b hb))⟩
+    · exact ⟨h, fun b hb => hb⟩
+
 /-- `carquet_read_next_page` under F28: live buffers stay live, nothing is freed, and the values it
 copies point into a live buffer. -/
 theorem readNextPage_heap (r : Reader α) (h : HeapOk r) (m : Int) :
@@ -102,41 +150,12 @@ theorem readNextPage_heap (r : Reader α) (h : HeapOk r) (m : Int) :
       ((preparePage Fixes.all r).2 = none → (preparePage Fixes.all r).1.chunk.retains = true →
         ∀ id, (preparePage Fixes.all r).1.pageData = some id → id ∈ liveBufs (preparePage Fixes.all r).1) := by
     unfold preparePage
-    split
-    · have ha : HeapOk (advance r) := heapOk_of_heapEq (heapEq_advance r) h
-      cases hp : (advance r).chunk.pages[(advance r).currentPage]? with
-      | none =>
-        simp only [loadNextPage, hp]
-        refine ⟨ha, ?_, fun hn => by simp at hn⟩
-        intro b hb; rw [liveBufs_of_heapEq (heapEq_advance r)]; exact hb
-      | some o =>
-        cases o with
-        | none =>
-          simp only [loadNextPage, hp]
-          refine ⟨ha, ?_, fun hn => by simp at hn⟩
-          intro b hb; rw [liveBufs_of_heapEq (heapEq_advance r)]; exact hb
-        | some p =>
-          by_cases hbig : (p.defs.length : Int) > (advance r).valuesRemaining
-          · simp only [loadNextPage, hp, hbig, if_true]
-            refine ⟨ha, ?_, fun hn => by simp at hn⟩
-            intro b hb; rw [liveBufs_of_heapEq (heapEq_advance r)]; exact hb
-          simp only [loadNextPage, hp, hbig, if_false]
-          obtain ⟨s1, s2, _, s4⟩ := swapPageData_heap (advance r) ha
-          have he := heapEq_installPage Fixes.all (advance r) p
-          refine ⟨heapOk_of_heapEq he s1, ?_, ?_⟩
-          · intro b hb
-            rw [liveBufs_of_heapEq he]
-            exact s2 b (by rw [liveBufs_of_heapEq (heapEq_advance r)]; exact hb)
-          · intro _ hret id hid
-            rw [liveBufs_of_heapEq he]
-            have hc : (installPage Fixes.all (advance r) p).chunk = (swapPageData Fixes.all (advance r)).chunk := by
-              simp [installPage]
-            exact s4 (by rw [← hc]; exact hret) id (by rw [← he.1]; exact hid)
-    · refine ⟨h, fun b hb => hb, ?_⟩
-      intro _ _ id hid
-      simp only [liveBufs, List.mem_append]
-      left
-      rw [hid]; simp
+    obtain ⟨h1, h2⟩ := prepareLoop_heap (r.chunk.pages.length + 1) r h
+    refine ⟨h1, h2, ?_⟩
+    intro _ _ id hid
+    simp only [liveBufs, List.mem_append]
+    left
+    rw [hid]; simp
   unfold readNextPage
   obtain ⟨hp1, hp2, hp3⟩ := hprep
   cases hpp : preparePage Fixes.all r with
